@@ -1,0 +1,12 @@
+//go:build verif
+
+package verifhook
+
+import (
+	"github.com/open2b/scriggo/internal/compiler"
+)
+
+var (
+	LexProgram        = compiler.VerifLexProgram
+	LexProgramRecover = compiler.VerifLexProgramRecover
+)
